@@ -66,7 +66,9 @@ func ghostValidKeySpace(s *KeySpace) bool {
 //@   ensures uint32(result) == murmur.Hash(key, 0) % s.keyGroupCount
 
 //@ func KeySpace.RangeIndex
-//@   property C05
+//@   property C05 C04
+//@   pure
+//@   reads s.keyGroupCount, s.rangeLookup
 //@   requires ghostValidKeySpace(s)
 //@   ensures 0 <= result && result < len(s.keyGroupRanges)
 //@   ensures s.keyGroupRanges[result].IncludesKeyGroup(KeyGroup(murmur.Hash(key, 0) % s.keyGroupCount))
